@@ -22,7 +22,8 @@ TECHNIQUE = 'argument-fingerprint purity monitor on every public callable + alia
 RULE = ('every public function/method (enumerated) x call templates {array, integer sample, float sample} x scales '
         '{linear, log, logicle} x scalar/list arguments, list-valued bins, dict parameters, population lists; all ordered '
         'pairs of a pool of read-only queries on a fresh object; non-trivial = call passes a mutable container or a '
-        'sample; distinct = (template, sample kind) / (q1, q2, sample kind)')
+        'sample; distinct = (template, sample kind) / (q1, q2, sample kind)'
+        ' Also: per-violin bin-edge lists with a log position axis and a zero position, a base sample that went through the generic transformation (aliasing).')
 ASSUMPTIONS = ['fingerprints read public accessors only', 'functions without a call template are listed as uncovered (not a violation)']
 MIN_CHECKS = {'quick': 8000, 'thorough': 150000}
 REQUIRED_COUNTERS = ['chk:purity', 'chk:alias', 'chk:history']
